@@ -63,27 +63,53 @@ pub fn sig_channel(spec: &RunSpec) -> (Option<crate::director::SigTx>, Option<Si
     (None, None)
 }
 
+/// Builds the options for a run. The three setters commute as far as the documentation says, so
+/// they are called in an order that depends on the run spec (all six orders occur): a setter that
+/// resets what an earlier one stored shows up as a run with the wrong direction / strategy / flag.
 pub fn opts<'a>(spec: &RunSpec, rx: Option<SigRx>) -> StreamOpts<'a, 'a> {
     let mut o = StreamOpts::new();
-    if spec.reverse {
-        o = o.rev();
-    }
+    let order: [u8; 3] = match crate::runner::hash_of(spec) % 6 {
+        0 => [0, 1, 2],
+        1 => [0, 2, 1],
+        2 => [1, 0, 2],
+        3 => [1, 2, 0],
+        4 => [2, 0, 1],
+        _ => [2, 1, 0],
+    };
     #[cfg(feature = "b")]
-    {
-        use interruptible::InterruptibilityState;
-        match (spec.intr, rx) {
-            (Intr::None, _) | (_, None) => {}
-            (Intr::Ignore, Some(rx)) => {
-                o = o.interruptibility_state(InterruptibilityState::new_ignore_interruptions(rx.into()));
+    let mut rx = rx;
+    for step in order {
+        match step {
+            0 => {
+                if spec.reverse {
+                    o = o.rev();
+                }
             }
-            (Intr::FinishCurrent, Some(rx)) => {
-                o = o.interruptibility_state(InterruptibilityState::new_finish_current(rx.into()));
+            1 => {
+                #[cfg(feature = "b")]
+                {
+                    use interruptible::InterruptibilityState;
+                    match (spec.intr, rx.take()) {
+                        (Intr::None, _) | (_, None) => {}
+                        (Intr::Ignore, Some(rx)) => {
+                            o = o.interruptibility_state(InterruptibilityState::new_ignore_interruptions(rx.into()));
+                        }
+                        (Intr::FinishCurrent, Some(rx)) => {
+                            o = o.interruptibility_state(InterruptibilityState::new_finish_current(rx.into()));
+                        }
+                        (Intr::PollNextN(k), Some(rx)) => {
+                            o = o.interruptibility_state(InterruptibilityState::new_poll_next_n(rx.into(), k));
+                        }
+                    }
+                }
             }
-            (Intr::PollNextN(k), Some(rx)) => {
-                o = o.interruptibility_state(InterruptibilityState::new_poll_next_n(rx.into(), k));
+            _ => {
+                #[cfg(feature = "b")]
+                {
+                    o = o.interrupted_next_item_include(spec.include);
+                }
             }
         }
-        o = o.interrupted_next_item_include(spec.include);
     }
     #[cfg(not(feature = "b"))]
     {
